@@ -431,4 +431,35 @@ theorem DBLMUL_generic_eq (P : JacPoint F) (k : Nat) (Q : JacPoint F) (l : Nat) 
     simp only [Nat.add_sub_cancel]
     exact ih _
 
+/-! ## ec_dbl_iter -/
+
+theorem foldl_const_iter {α : Type} (f : α → α) (m : Nat) (x : α) :
+    (List.range m).foldl (fun R (_ : Nat) => f R) x = iter f m x := by
+  induction m generalizing x with
+  | zero => rfl
+  | succ m ih =>
+    rw [List.range_succ_eq_map, List.foldl_cons, List.foldl_map]
+    simp only [iter]
+    exact ih (f x)
+
+/-- generated `ec_dbl_iter` (count as a natural number) = hand model `dblIter` (signed count) -/
+theorem ec_dbl_iter_eq (res : EcPoint F) (n : Nat) (curve : EcCurve F) (P : EcPoint F) :
+    SqiGen.ec_dbl_iter res n curve P = dblIter res (n : Int) curve P := by
+  have h1 : ∀ c : EcCurve F, SqiGen.ec_dbl_iter_loop1 c = fun R (_ : Nat) => xDBL_A24 R c.A24 := by
+    intro c; funext R i; rfl
+  have h2 : ∀ c : EcCurve F, SqiGen.ec_dbl_iter_loop2 c = fun R (_ : Nat) => ec_dbl c R := by
+    intro c; funext R i; rfl
+  have c1 : ((n : Int) > 0) = (n > 0) := by
+    apply propext; constructor <;> intro h <;> omega
+  have c2 : ((n : Int) > 50) = (n > 50) := by
+    apply propext; constructor <;> intro h <;> omega
+  simp only [SqiGen.ec_dbl_iter, dblIter, h1, h2, foldl_const_iter, Int.toNat_natCast, c1, c2]
+  by_cases hn : n > 0
+  · obtain ⟨m, rfl⟩ : ∃ m, n = m + 1 := ⟨n - 1, by omega⟩
+    by_cases h50 : m + 1 > 50
+    · simp [hn, h50, iter]
+    · simp [hn, h50, iter]
+      rfl
+  · simp [hn]
+
 end SqiProofs.LadderGen
